@@ -34,30 +34,41 @@ def surface_programs(tier):
             continue
         try:
             pts, _ = surface.instantiate(sig)
-            args = [surface.inhabitants(p)[0] for p in pts]
+            inhs = [surface.inhabitants(p) for p in pts]
         except surface.NoInhabitant:
             continue
-        if not args:
+        if not inhs:
             continue
+        base = [x[0] for x in inhs]
+        # the other arguments in several shapes (empty / lazy / absent containers take other paths through a builtin)
+        variants = [base]
+        for j, xs in enumerate(inhs):
+            for alt in xs[1:(4 if tier == "thorough" else 3)]:
+                v = list(base)
+                v[j] = alt
+                variants.append(v)
         short = name in DOCUMENTED
         decls = []
-        positions = [[i] for i in range(len(args))]
-        if len(args) >= 2:
-            positions += [[i, j] for i in range(len(args)) for j in range(i + 1, len(args))][:3]
-        for pos in positions:
-            if short and pos != [0]:
-                continue        # non-first arguments of documented short-circuit functions
-            if name in ("is_error", "get_error", "if_error"):
-                continue
-            a = []
-            for i, (src, pt) in enumerate(zip(args, pts)):
-                if i in pos:
-                    a.append({"k": "call", "f": "error", "sty": "fn", "cast": surface.render_type(pt),
-                              "args": [{"k": "lit", "ty": "str", "v": "E%d" % i}]})
-                else:
-                    a.append({"k": "raw", "src": src})
-            decls.append({"k": "let", "n": "e" + "_".join(map(str, pos)), "ty": "", "annot": False,
-                          "e": {"k": "call", "f": "__native", "rname": name, "args": a, "sty": "fn"}})
+        for vi, args in enumerate(variants):
+            positions = [[i] for i in range(len(args))]
+            if len(args) >= 2 and vi == 0:
+                positions += [[i, j] for i in range(len(args)) for j in range(i + 1, len(args))][:3]
+            for pos in positions:
+                if short and pos != [0]:
+                    continue        # non-first arguments of documented short-circuit functions
+                if name in ("is_error", "get_error", "if_error"):
+                    continue
+                if vi > 0 and all(args[i] == base[i] for i in range(len(args)) if i not in pos):
+                    continue        # the varied argument is the one replaced by the error
+                a = []
+                for i, (src, pt) in enumerate(zip(args, pts)):
+                    if i in pos:
+                        a.append({"k": "call", "f": "error", "sty": "fn", "cast": surface.render_type(pt),
+                                  "args": [{"k": "lit", "ty": "str", "v": "E%d" % i}]})
+                    else:
+                        a.append({"k": "raw", "src": src})
+                decls.append({"k": "let", "n": "e" + "_".join(map(str, pos)) + ("v%d" % vi if vi else ""), "ty": "", "annot": False,
+                              "e": {"k": "call", "f": "__native", "rname": name, "args": a, "sty": "fn"}})
         if decls:
             progs.append({"id": "sig%d" % si, "decls": decls, "calls": [], "lim": dict(NOLIM), "sig": sig["text"]})
     return progs
